@@ -161,7 +161,7 @@ def click_callback(ctx, fn, deco, value, pname="param"):
     cb = next((k.value for k in deco.keywords if k.arg == "callback"), None)
     if cb is None:
         return value
-    interp = PureInterp(ctx, hooks={"multiprocessing.cpu_count": lambda: 3, "os.cpu_count": lambda: 3})
+    interp = PureInterp(ctx, hooks={"multiprocessing.cpu_count": lambda: 3, "os.cpu_count": lambda: 3, "os.sched_getaffinity": lambda pid=0: {0, 1, 2}, "os.process_cpu_count": lambda: 3})
     try:
         f = interp.eval(cb, {}, fn.module)
         return interp.apply(f, [Obj("click_context", params={}, obj=None, resilient_parsing=False), Obj("click_param", name=pname, opts=[], human_readable_name=pname), value], {}, 0)
@@ -2918,7 +2918,8 @@ class StreamModel:
                        f"the process blocks in write() once the pipe holds {PIPE_CAPACITY} bytes, never exits and never closes the pipe being read")
 
     def read(self, n=-1):
-        end = len(self.data) if n is None or n < 0 else min(len(self.data), self.pos + n)
+        # read(n) gives UP TO n bytes - whatever has arrived; a short chunk says nothing about the end of the stream (only an empty one does)
+        end = len(self.data) if n is None or n < 0 else min(len(self.data), self.pos + min(n, 20000))
         if end == self.pos or n is None or n < 0:
             self._eof_reachable()
         chunk, self.pos = self.data[self.pos:end], end
@@ -3052,7 +3053,7 @@ def pool_as_started(ctx):
     fn = ctx.index.func("gwf.plugins.workers:workers")
     got = []
     hooks = {"asyncio.run": lambda coro, **k: coro, "attr:start_server": lambda recv, *a, **k: got.append(getattr(recv, "scheduler", None)),
-             "attr:isatty": lambda recv: False, "os.isatty": lambda fd: False, "multiprocessing.cpu_count": lambda: 3, "os.cpu_count": lambda: 3,
+             "attr:isatty": lambda recv: False, "os.isatty": lambda fd: False, "multiprocessing.cpu_count": lambda: 3, "os.cpu_count": lambda: 3, "os.sched_getaffinity": lambda pid=0: {0, 1, 2}, "os.process_cpu_count": lambda: 3,
              "asyncio.Semaphore": lambda *a, **k: Obj("semaphore"), "asyncio.BoundedSemaphore": lambda *a, **k: Obj("semaphore"),
              "os.getcwd": lambda: tok("CWD"), "os.path.abspath": lambda p: p, "os.path.realpath": lambda p: p,
              "os.environ.get": lambda k_, d_=None: d_, "os.getenv": lambda k_, d_=None: d_}
@@ -3882,7 +3883,7 @@ def _click_convert(ctx, fn, opt_long, text):
                 vals[("min", "max")[i]] = a
             for k in typ.keywords:
                 vals[k.arg] = k.value
-            ip = PureInterp(ctx, hooks={"multiprocessing.cpu_count": lambda: 3, "os.cpu_count": lambda: 3})
+            ip = PureInterp(ctx, hooks={"multiprocessing.cpu_count": lambda: 3, "os.cpu_count": lambda: 3, "os.sched_getaffinity": lambda pid=0: {0, 1, 2}, "os.process_cpu_count": lambda: 3})
             try:
                 lo = ip.eval(vals["min"], {}, fn.module) if "min" in vals else None
                 hi = ip.eval(vals["max"], {}, fn.module) if "max" in vals else None
@@ -3904,7 +3905,7 @@ def _click_convert(ctx, fn, opt_long, text):
         elif isinstance(idx.lookup(typ_name), ClassInfo) and idx.method(idx.lookup(typ_name), "convert") is not None:
             # a parameter type written in the package: click calls its convert(value, param, ctx); self.fail(...) raises BadParameter
             pcls = idx.lookup(typ_name)
-            ip = PureInterp(ctx, hooks={"multiprocessing.cpu_count": lambda: 3, "os.cpu_count": lambda: 3,
+            ip = PureInterp(ctx, hooks={"multiprocessing.cpu_count": lambda: 3, "os.cpu_count": lambda: 3, "os.sched_getaffinity": lambda pid=0: {0, 1, 2}, "os.process_cpu_count": lambda: 3,
                                         "attr:fail": lambda recv, message, *a, **k: (_ for _ in ()).throw(Raised("BadParameter", str(message)))})
             try:
                 inst = ip.eval(typ, {}, fn.module) if isinstance(typ, ast.Call) else ip.apply(pcls, [], {}, 0)
@@ -3937,7 +3938,7 @@ def eval_workers_command(ctx, text):
     def rec(*a, **k):
         captured.append((a, dict(k)))
 
-    hooks = {"gwf.backends.local.start_cluster": rec, "gwf.backends.local.start_cluster_async": rec, "multiprocessing.cpu_count": lambda: 3, "os.cpu_count": lambda: 3,
+    hooks = {"gwf.backends.local.start_cluster": rec, "gwf.backends.local.start_cluster_async": rec, "multiprocessing.cpu_count": lambda: 3, "os.cpu_count": lambda: 3, "os.sched_getaffinity": lambda pid=0: {0, 1, 2}, "os.process_cpu_count": lambda: 3,
              "os.getcwd": lambda: tok("CWD"), "os.path.abspath": lambda p: p if str(p).startswith(("/", "⟦PROJ")) else tok("CWD") + "/" + str(p),
              "os.path.realpath": lambda p: p if str(p).startswith(("/", "⟦PROJ")) else tok("CWD") + "/" + str(p)}
     interp = PureInterp(ctx, hooks=hooks)
